@@ -13,6 +13,7 @@ func runVestMachine(t *rapid.T, on ...string) *vestMachine {
 	}
 	m.v = NewVestWorld(GenVTypes(t))
 	m.note("vesting types %s", jsonStr(m.v.VTypes))
+	m.seedGenesisPools()
 	m.seedPools()
 	t.Repeat(m.actions())
 	return m
